@@ -410,7 +410,8 @@ package nitro
 //@ func (*Nitro).Visitor$2
 //@ props C10
 //@ use sl-globals
-//@ requires m != nil && snap != nil && snap.db == m && wfStore(m) && snap.refCount < 1000000000 && snap.refCount > 0
+//@ requires m != nil && snap != nil && snap.db == m && wfStore(m)
+//@ assume[held-ref] snap.refCount < 1000000000 && snap.refCount > 0
 //@ requires len(errors) == len(pivotItems) - 1
 //@ requires[pivots] (forall k int {pivotItems[k]} :: 0 <= k && k < len(pivotItems) && pivotItems[k] != nil ==> pivotItems[k] < 72057594037927936) && ptr(pivotItems) + 8 * len(pivotItems) <= brk()
 //@ recv k assume 0 <= k && k + 1 < len(pivotItems) && nShards - old(nShards) < 1000000000
@@ -466,4 +467,20 @@ package nitro
 //@ ensures[middle] forall k int {pivotItems[k]} :: 1 <= k && k + 1 < len(pivotItems) ==> pivotItems[k] != nil && pivotItems[k] < 72057594037927936
 //@ ensures[ascending] forall k, k2 int {pivotItems[k], pivotItems[k2]} :: 1 <= k && k2 == k + 1 && k2 + 1 < len(pivotItems) ==> insc(pivotItems[k], pivotItems[k2]) < 0
 //@ ensures[store] wfStore(m) && snap.db == m
+//@ nopanic
+
+
+// Visitor: every send on the work channel satisfies the worker's channel invariant and finds a free slot (the
+// feeder never blocks); a recorded callback error is returned.
+//@ func (*Nitro).Visitor
+//@ props C10
+//@ requires m != nil && snap != nil && snap.db == m && wfStore(m) && snap.refCount > 0 && snap.refCount < 1000000000 && shards >= 1 && concurrency >= 1
+//@ modifies *
+//@ send v assert[slot] 0 <= v && v + 1 < len(pivotItems) && v < cap(wch)
+//@ loop 1 invariant[ctx] m != nil && snap != nil && snap.db == m && wfStore(m) && 0 <= i
+//@ loop 1 invariant[shape] len(pivotItems) >= 2 && len(errors) == len(pivotItems) - 1 && cap(wch) == len(pivotItems) - 1 && ptr(pivotItems) + 8 * len(pivotItems) <= brk()
+//@ loop 1 invariant[pivots] forall k int {pivotItems[k]} :: 0 <= k && k < len(pivotItems) && pivotItems[k] != nil ==> pivotItems[k] < 72057594037927936
+//@ loop 2 invariant[shape] 0 <= shard && shard <= len(pivotItems) - 1 && len(pivotItems) >= 2 && cap(wch) == len(pivotItems) - 1
+//@ loop 3 invariant[scanned] -1 <= rangeindex && (forall j int {errors[j]} :: 0 <= j && j <= rangeindex && j < len(errors) ==> errors[j] == nil)
+//@ ensures[error] result == nil ==> (forall j int {errors[j]} :: 0 <= j && j < len(errors) ==> errors[j] == nil)
 //@ nopanic
